@@ -46,15 +46,25 @@ def npc_siblings(ctx, crate, clause="npc-bound-siblings"):
     ba, bb = ctx.anchor(crate, fa, clause), ctx.anchor(crate, fb, clause)
     if ba is None or bb is None: return
     from rules.common import strip_generics
-    ea = Engine(crate); ra = ea.run(fa); ctx.functions |= ea.visited_fns
     slope = crate.field_index("ConstantsC2V", "slope_npc"); inter = crate.field_index("ConstantsC2V", "intercept_npc")
     def norm(t, csts):
         """rename the constants object to a common symbol"""
         if t == csts: return ('sym', ('csts',))
         if isinstance(t, tuple): return tuple(norm(x, csts) if isinstance(x, tuple) else x for x in t)
         return t
-    ta = norm(ra.ret, ('deref', param("csts"))) if ra.returns else None
-    eb = Engine(crate, opaque={"get_or_create"}); eb.run(fb); ctx.functions |= eb.visited_fns
+    # a helper that turns (|lat|, radius) into what is added to the reduced longitude is kept as an
+    # uninterpreted function of its arguments on both sides (same helper, same arguments)
+    HW = "cone_lon_half_width"
+    models = {HW: (lambda eng, st, args, site: ('call', HW, tuple(args)))} if crate.body(HW) is not None else {}
+    # scalar side: the helper as the public scalar function calls it (its arguments substituted)
+    fpub = "largest_center_to_vertex_distance_with_radius"
+    ea = Engine(crate, opaque={"get_or_create"}, models=models); ea.run(fpub); ctx.functions |= ea.visited_fns
+    calls = [ev for ev in ea.events.values() if ev.callee == fa and ev.ret is not None]
+    ta = None
+    if len(calls) == 1:
+        csa = [x for x in walk(calls[0].ret) if x[0] == 'deref' and any(x[1] == ev.ret for ev in ea.events.values() if ev.callee == "get_or_create")]
+        ta = norm(calls[0].ret, csa[0]) if csa else None
+    eb = Engine(crate, opaque={"get_or_create"}, models=models); eb.run(fb); ctx.functions |= eb.visited_fns
     pushes = [ev for ev in eb.events.values() if ev.callee and strip_generics(ev.callee).endswith("Vec::push") and len(ev.site) == 2]
     goc = {ev.ret for ev in eb.events.values() if ev.callee == "get_or_create"}
     cand = []
@@ -63,9 +73,38 @@ def npc_siblings(ctx, crate, clause="npc-bound-siblings"):
         cs = [x for x in walk(v) if x[0] == 'deref' and x[1] in goc]
         if cs and any(x[0] == 'fld' and x[2] == slope for x in walk(v)):
             cand.append(norm(v, cs[0]))
+    # what is added to the reduced longitude must be the half-width IN LONGITUDE of the cone: on the
+    # sphere a cone of radius r centred at latitude b reaches asin(sin r / cos b) >= r / cos b > r on each
+    # side of its centre, and every longitude when it contains a pole (b + r >= pi/2).  Adding the bare
+    # radius makes the bound too small near the poles (cells of the cone lost).  Read at sample points.
+    import math
+    from rules.common import feval
+    added = None
+    if ta is not None:
+        for x in walk(ta):
+            if x[0] == 'call' and x[1].endswith("::min") and len(x[2]) == 2:
+                for a_ in x[2]:
+                    if a_[0] == 'op' and a_[1] == 'add' and a_[2] == 'f64': added = a_[4] if any(y[0] == 'call' and y[1].endswith("::abs") for y in walk(a_[3])) else a_[3]
+    okw = None; whyw = "cannot find the term added to the reduced longitude"
+    if added is not None:
+        if added[0] == 'call' and added[1] == HW:
+            eh = Engine(crate); rh = eh.run(HW)
+            pn = crate.body(HW).param_names()
+            bad = []
+            for b_, r_ in ((0.75, 0.1), (1.0, 0.2), (1.3, 0.2), (1.5, 0.01), (0.9, 0.5), (1.4, 0.3), (1.56, 0.02), (0.3, 1.0)):
+                v = feval(rh.ret, {('p', pn[0]): b_, ('p', pn[1]): r_}, eh) if rh.returns else None
+                want = math.pi / 4 if b_ + r_ >= math.pi / 2 else math.asin(min(1.0, math.sin(r_) / math.cos(b_)))
+                if v is None or (b_ + r_ >= math.pi / 2 and v < math.pi / 4) or (b_ + r_ < math.pi / 2 and v < want - 1e-12): bad.append((b_, r_, v, want))
+            okw = not bad and calls[0].args[1] == added
+            whyw = "w(|lat|, r) >= asin(sin r / cos lat) (>= pi/4 when the cone contains a pole) at 8 sample points" if okw else "w(lat = %s, r = %s) = %s, the longitude half-width of that cone is %.6f" % bad[0] if bad else "the helper is not given w"
+        else:
+            lat_in = any(y[0] == 'p' and 'lat' in y[1] for y in walk(added))
+            okw = False if not lat_in else None
+            whyw = "the polar-cap bound adds %s to the reduced longitude: the bare radius, not the half-width in longitude of the cone (asin(sin r / cos lat), every longitude when the cone contains a pole) — cells of a cone near a pole are lost" % show(added)[:60] if not lat_in else "cannot read %s" % show(added)[:60]
+    ctx.report(clause, "npc-bound:longitude-extent-of-the-cone", okw, whyw, at=ba.span, kind="N")
     ok = ta is not None and len(cand) == 1 and cand[0] == ta
     ctx.report(clause, "npc-bound:scalar==multi-depth", ok,
-               "both = slope_npc * min(|pi/4 - lon %% pi/2| + radius, pi/4) + intercept_npc" if ok else
+               "both = slope_npc * min(|pi/4 - |lon| %% pi/2| + w, pi/4) + intercept_npc with the same w(lat, radius): %s" % (show(ta)[:120]) if ok else
                "the polar-cap bound of largest_c2v_dist_in_npc_with_radius (%s) differs from the one pushed by the multi-depth helper (%s)" % (show(ta)[:140] if ta else None, [show(c)[:140] for c in cand]), at=ba.span, kind="N")
 
 
@@ -170,6 +209,20 @@ def run(ctx):
     breaks = [k for k in range(len(ex)) if not (ex[k] > -1e-7) or (k > 0 and not (ex[k] <= 0.6 * ex[k - 1] + 1e-7))]
     ctx.report("table", "table:second-order-pattern", not breaks, "T[k]/T[k+1] - 2 is positive and at least halves-ish at each depth (k = 0..28)" if not breaks else
                "the pattern breaks at depth(s) %s: T[%d]/T[%d] = %.9f — an entry near there is inconsistent with its neighbours" % (breaks, breaks[0], breaks[0] + 1, ratios[breaks[0]]), at=s["span"], kind="N")
+    # the limit may not exceed the width of the narrowest cell.  Along the borders of the polar-cap base
+    # cells (lon = k*pi/2) a cell is, to first order, a parallelogram of area pi/(3 nside^2) whose long
+    # side is sqrt((pi^2/4) k2 + (4/9)/k2)/nside with k2 = (2 - sigma^2/3)/3, sigma = sqrt(3(1 - sin lat)):
+    # its width decreases from 0.7108/nside on the transition latitude (sigma = 1) to
+    # W = (pi/3)/sqrt((2/3)(1 + pi^2/4)) = 0.68877/nside at the pole (sigma = 0).  First order: checked
+    # where the cells are small (depth >= 12), with 0.2 % for the finite size.
+    import math
+    W = (math.pi / 3) / math.sqrt((2.0 / 3.0) * (1 + math.pi ** 2 / 4))
+    over = [(d, T[d] * (1 << d)) for d in range(12, len(T)) if T[d] * (1 << d) > W * 1.002]
+    for d, v in over:
+        ctx.report("table", "table[%d]=%r:narrowest-cell" % (d, T[d]), False,
+                   "limit * nside = %.5f at depth %d exceeds the width of the narrowest cells, %.5f (cap borders towards the poles): a cone of that radius can cross a whole cell, so it is not contained in the cell of its centre plus the neighbours" % (v, d, W), at=s["span"], kind="N")
+    ctx.report("table", "table:narrowest-cell-bound", not over, "for depth 12..=29, limit * nside <= %.5f * 1.002 (narrowest cell, at the poles along the cap borders); max %.5f" % (W, max(T[d] * (1 << d) for d in range(12, len(T)))) if not over else
+               "%d entries exceed the narrowest-cell width" % len(over), at=s["span"], kind="N")
     idx_of = {v: i for i, v in enumerate(T)}
     b = ctx.anchor(crate, FN, "decision-tree")
     if b is None: return
